@@ -117,15 +117,17 @@ impl<'b, 'tx> BucketName<'b, 'tx> {
     }
 }
 
+// The bytes handed out here are no longer tied to the borrow of the transaction ('b),
+// so they must not point into the memory map: they are an owned copy of the name.
 impl<'b, 'tx> ToBytes<'tx> for BucketName<'b, 'tx> {
     fn to_bytes(self) -> Bytes<'tx> {
-        self.name
+        Bytes::Bytes(bytes::Bytes::copy_from_slice(self.name.as_ref()))
     }
 }
 
 impl<'b, 'tx> ToBytes<'tx> for &BucketName<'b, 'tx> {
     fn to_bytes(self) -> Bytes<'tx> {
-        self.name.clone()
+        Bytes::Bytes(bytes::Bytes::copy_from_slice(self.name.as_ref()))
     }
 }
 
